@@ -19,7 +19,16 @@
           one chunk per call, and returns b'' only when the buffer is empty;
      (O2) closing the socket / paramiko transport (or finding the transport already
           inactive) closes the connection towards the peer;
-     (O3) join returns "not alive" only after the worker's run() has ended. *)
+     (O3) join returns "not alive" only after the worker's run() has ended;
+     (O6) a read that SLEEPS inside the transport (state [WBlocked]: select reported the handle
+          readable but recv has nothing to return - on TLS an incomplete record or a record
+          without application data, elsewhere spurious readiness - and the peer stays silent)
+          is woken by the local shutdown/close of the handle and then returns without data
+          (b'' or an error); while the handle is open it returns only if the environment acts
+          (label [Unblock]: the peer sends the rest, the socket time-out expires).  The closing
+          flag alone does not wake it: in [WBlocked] with the handle open no worker label is
+          enabled.  This is what TLS/Unix close() call shutdown(SHUT_RDWR) for before close(),
+          and what paramiko's Transport.close() does to a channel recv. *)
 From NC Require Import Model.Base.
 
 Inductive transport := Ssh | Tls | Unix.
@@ -46,6 +55,7 @@ Inductive wpc :=
 | WSelecting                    (* inside s.select(TICK) *)
 | WReady                        (* select reported the handle: about to read *)
 | WReading (open_at_begin : bool)
+| WBlocked                      (* asleep inside _transport_read: begun on an open handle, nothing to return (O6) *)
 | WDispatching (n : nat)        (* n complete messages of this read still to dispatch, n > 0 *)
 | WAfterTimeout                 (* select reported nothing: about to test the closing flag *)
 | WAfterEof                     (* read returned b'': about to test the closing flag *)
@@ -82,7 +92,10 @@ Inductive label :=
 | ErrBroadcast | WorkerCloseCall | Exit
 (* environment, SSH only: paramiko's transport thread appends one chunk to the channel buffer
    (n = number of NETCONF messages that chunk will complete when the worker parses it) *)
-| Arrive (n : nat).
+| Arrive (n : nat)
+(* environment, every transport: the read in progress finds nothing to return and sleeps /
+   something makes it go on while the handle is still open (O6) *)
+| Block | Unblock.
 
 Record state := mk {
   tr : transport;
@@ -249,6 +262,16 @@ Definition step (s : state) (l : label) : option state :=
       match worker s with WReady => Some (w_worker s (WReading (socket_open s))) | _ => None end
   | Read r =>
       match worker s with
+      | WBlocked =>
+          (* (O6) woken by the local shutdown/close of the handle, and only by that; no data *)
+          if socket_open s then None else
+          match r with
+          | RData _ => None
+          | REof => if is_ssh (tr s) then
+                      match chan s with [] => Some (w_worker s WAfterEof) | _ :: _ => None end   (* (O5) *)
+                    else Some (w_worker s WAfterEof)
+          | RErr => Some (w_worker s WRaised)
+          end
       | WReading o =>
           match r with
           | RData n =>
@@ -324,6 +347,15 @@ Definition step (s : state) (l : label) : option state :=
   (* ---------------- environment (SSH channel) ---------------- *)
   | Arrive n =>
       if is_ssh (tr s) && socket_open s then Some (w_chan s (chan s ++ [n])) else None       (* (O4) *)
+  (* ---------------- environment (a read that sleeps, O6) ---------------- *)
+  | Block =>
+      match worker s with
+      | WReading true => if socket_open s then Some (w_worker s WBlocked) else None
+      | _ => None end
+  | Unblock =>
+      match worker s with
+      | WBlocked => if socket_open s then Some (w_worker s (WReading true)) else None
+      | _ => None end
   end.
 
 (* run a label sequence: Some final state iff every label is accepted *)
@@ -371,6 +403,7 @@ Definition wfuel (w : wpc) : nat :=
   | WRaised => 10
   | WAfterTimeout | WAfterEof => 11
   | WReading false => 12
+  | WBlocked => 12
   | WReady => 13
   | WSelecting => 14
   | WTop => 15
@@ -398,6 +431,7 @@ Definition sfuel (w : wpc) : nat :=
   | WRaised => 10
   | WAfterTimeout | WAfterEof => 11
   | WReading _ => 13
+  | WBlocked => 13
   | WReady => 14
   | WSelecting => 15
   | WTop => 16
